@@ -605,6 +605,7 @@ def run(ctx):
     _run_rules(ctx)
     from .. import boundaries
     boundaries.check(ctx, 'C06.RB', 'C06')
+    boundaries.check_amounts(ctx, 'C06.RA', 'C06')
     boundaries.check_writes(ctx, 'C06.RW', 'C06')
     boundaries.check_guards(ctx, 'C06.RG', 'C06')
     boundaries.check_calls(ctx, 'C06.RC', 'C06')
